@@ -38,6 +38,22 @@ impl DiagnosticEmitter {
         }
     }
 
+    /// Verification seam: an emitter that renders into a shared buffer instead of stdout
+    #[cfg(mos_verif)]
+    pub fn buffered(
+        display_style: DisplayStyle,
+    ) -> (Self, std::sync::Arc<std::sync::Mutex<Vec<u8>>>) {
+        let buffer = std::sync::Arc::new(std::sync::Mutex::new(vec![]));
+        let emitter = Self {
+            writer: Box::new(verif_buffer::SharedBufferStream(buffer.clone())),
+            config: Config {
+                display_style,
+                ..Default::default()
+            },
+        };
+        (emitter, buffer)
+    }
+
     pub fn emit(&mut self, error: anyhow::Error) {
         match error.downcast_ref::<Diagnostics>() {
             Some(d) => {
@@ -75,6 +91,39 @@ impl DiagnosticEmitter {
 
             codespan_reporting::term::emit(&mut self.writer, &self.config, &code_map, &diag)
                 .unwrap();
+        }
+    }
+}
+
+#[cfg(mos_verif)]
+mod verif_buffer {
+    use codespan_reporting::term::termcolor::{ColorSpec, WriteColor};
+    use std::io;
+
+    pub struct SharedBufferStream(pub std::sync::Arc<std::sync::Mutex<Vec<u8>>>);
+
+    impl io::Write for SharedBufferStream {
+        fn write(&mut self, buf: &[u8]) -> io::Result<usize> {
+            self.0.lock().unwrap().extend(buf);
+            Ok(buf.len())
+        }
+
+        fn flush(&mut self) -> io::Result<()> {
+            Ok(())
+        }
+    }
+
+    impl WriteColor for SharedBufferStream {
+        fn supports_color(&self) -> bool {
+            false
+        }
+
+        fn set_color(&mut self, _: &ColorSpec) -> io::Result<()> {
+            Ok(())
+        }
+
+        fn reset(&mut self) -> io::Result<()> {
+            Ok(())
         }
     }
 }
